@@ -36,6 +36,13 @@ def _plan(tier, seed, section):
     return runs
 
 
+def _exe(tag):
+    """the harness; without the operations that do not compile on this tree (the owning checks report those)"""
+    import fvrun
+    extra = [] if fvrun.probe_insert_lvalue() else ["-DFV_NO_INSERT_LVALUE"]
+    return build.build_exe(tag, ["mtindep.cpp"], build.OPTIONS_SRCS, extra=extra, link=["-ldl"])
+
+
 def _run(arg):
     exe, r = arg
     env = dict(os.environ)
@@ -53,7 +60,11 @@ def phase(run_, section, tier, counters):
     """runs the section; reports violations on run_; adds to counters; returns the number of runs
     (the calls made inside the runs are reported as counters, not as evaluations)"""
     runs = _plan(tier, run_.seed, section)
-    exes = {tag: build.build_exe(tag, ["mtindep.cpp"], build.OPTIONS_SRCS, link=["-ldl"]) for tag in sorted({r[0] for r in runs})}
+    try:
+        exes = {tag: _exe(tag) for tag in sorted({r[0] for r in runs})}
+    except build.BuildError as e:
+        run_.inconc("the concurrent phase did not build on this tree: %s" % str(e)[-600:])
+        return 0
     calls = 0
     for r, rc, out, err, wd in optrun.pmap(_run, [(exes[r[0]], r) for r in runs]):
         tag, sec, threads, iters, seed = r
@@ -89,7 +100,7 @@ def phase(run_, section, tier, counters):
 
 
 def replay(run_, case, counters):
-    exe = build.build_exe(case["build"], ["mtindep.cpp"], build.OPTIONS_SRCS, link=["-ldl"])
+    exe = _exe(case["build"])
     for k in range(10):
         r = (case["build"], case["section"], case["threads"], case["iterations"], case["seed"])
         _, rc, out, err, wd = _run((exe, r))
